@@ -20,6 +20,25 @@ type TyCtx struct {
 	Share  bool // identical (same written order) sub-terms become one *types.Type
 	shared map[string]*types.Type
 	share  map[string]*val.Val // value hash-consing (ToYaeValShared)
+	// Arena (when non-nil): the parameter lists of function types and the element lists of
+	// tuples are carved one after another out of this one backing array (cap > len for every
+	// carved slice: its spare capacity is the next list), the way an arena allocator hands them out
+	Arena *[]*types.Type
+}
+
+// NewArena: a backing array for Arena.
+func NewArena() *[]*types.Type {
+	a := make([]*types.Type, 0, 4096)
+	return &a
+}
+
+func (c *TyCtx) take(n int) []*types.Type {
+	if c.Arena == nil || len(*c.Arena)+n > cap(*c.Arena) {
+		return make([]*types.Type, n)
+	}
+	at := len(*c.Arena)
+	*c.Arena = (*c.Arena)[:at+n]
+	return (*c.Arena)[at : at+n] // capacity reaches to the end of the arena
 }
 
 func NewTyCtx() *TyCtx {
@@ -30,7 +49,7 @@ func NewTyCtx() *TyCtx {
 // cache of shared sub-terms (so that sharing happens inside one type, not
 // across two).
 func (c *TyCtx) Fork() *TyCtx {
-	return &TyCtx{vars: c.vars, back: c.back, Share: c.Share, shared: map[string]*types.Type{}}
+	return &TyCtx{vars: c.vars, back: c.back, Share: c.Share, shared: map[string]*types.Type{}, Arena: c.Arena}
 }
 
 // VarName maps a yae type-variable name back to the model name.
@@ -81,13 +100,13 @@ func (c *TyCtx) to(t *model.Type) *types.Type {
 	case model.TMap:
 		return types.Map(c.To(t.A[0]), c.To(t.A[1]))
 	case model.TTuple:
-		xs := make([]*types.Type, len(t.A))
+		xs := c.take(len(t.A))
 		for i, a := range t.A {
 			xs[i] = c.To(a)
 		}
 		return types.Tuple(xs)
 	case model.TFun:
-		ps := make([]*types.Type, len(t.A)-1)
+		ps := c.take(len(t.A) - 1)
 		for i, a := range t.Params() {
 			ps[i] = c.To(a)
 		}
